@@ -9,8 +9,10 @@ import (
 	"os"
 	"path/filepath"
 	"sort"
+	"strconv"
 	"strings"
 	"sync"
+	"time"
 
 	"github.com/klauspost/compress/zstd"
 
@@ -284,6 +286,54 @@ func c10Recover(c *c10Crash, rep *kernel.Report) (*Fail, error) {
 	if len(missing) > 0 {
 		return fail("appended-datapoint-lost", fmt.Sprintf("%d datapoints whose WAL frame had been written completely are not in any block file after restart: %v (recovered %d datapoints)", len(missing), missing, len(got))), nil
 	}
+	// the summary of every block file covers the datapoints the block holds (a query decides by the summary's time range
+	// whether it looks into a block at all)
+	var sums map[string][][3]uint64
+	if err := w.Call("mdumpsummaries", nil, &sums); err != nil {
+		if d, ok := err.(*kernel.Died); ok {
+			return fail("dump-died", d.Exit+" "+d.Frame), nil
+		}
+		return nil, err
+	}
+	for _, f := range sortedKeys(dump) {
+		// <dir>/<suffix>_<blk>.tsg belongs to <dir>/<suffix>.mbsu, entry <blk>
+		base := strings.TrimSuffix(f, ".tsg")
+		us := strings.LastIndex(base, "_")
+		if us < 0 {
+			continue
+		}
+		blk, perr := strconv.ParseUint(base[us+1:], 10, 16)
+		if perr != nil {
+			continue
+		}
+		lo, hi, n := uint64(math.MaxUint64), uint64(0), 0
+		for _, sr := range dump[f] {
+			for _, p := range sr.Points {
+				n++
+				if p[0] < lo {
+					lo = p[0]
+				}
+				if p[0] > hi {
+					hi = p[0]
+				}
+			}
+		}
+		if n == 0 {
+			continue
+		}
+		found := false
+		for _, e := range sums[base[:us]+".mbsu"] {
+			if e[0] == blk {
+				found = true
+				if e[2] > lo || e[1] < hi {
+					return fail("block-summary-does-not-cover-its-datapoints", fmt.Sprintf("block file %s holds datapoints with timestamps +%d..+%d, its summary says +%d..+%d: a query over the uncovered part skips the block", f, int64(lo)-int64(MT0), int64(hi)-int64(MT0), int64(e[2])-int64(MT0), int64(e[1])-int64(MT0))), nil
+				}
+			}
+		}
+		if !found {
+			return fail("block-without-summary", fmt.Sprintf("block file %s (%d datapoints) has no entry in %s.mbsu", f, n, base[:us])), nil
+		}
+	}
 	return nil, nil
 }
 
@@ -439,3 +489,67 @@ func c10ReplayRecovery(doc json.RawMessage) int {
 }
 
 var _ = sort.Strings
+
+// c10CrashRestartQuery — the end of the story for a datapoint that went through the WAL: the whole server is killed after
+// the WAL timer flush, started again (production start-up, which replays the WAL), and asked for the series.
+type c10QJob struct {
+	Points int `json:"points"`
+}
+
+func c10QRun(w0 *kernel.Worker, j *c10QJob, rep *kernel.Report) (*Fail, error) {
+	name := fmt.Sprintf("c10q%d", time.Now().UnixNano()%1_000_000)
+	s := MSeries{Name: name, Tags: map[string]string{"k": "v"}}
+	for i := 0; i < j.Points; i++ {
+		ok, raw, err := mPut(w0, s, MT0+uint32(i), 1.5+float64(i))
+		if err != nil || !ok {
+			return &Fail{FP: "C10/harness-put", What: fmt.Sprintf("%v %s", err, raw)}, nil
+		}
+	}
+	_ = w0.Call("sleep", map[string]interface{}{"ms": 1700}, nil) // the WAL buffer is written by a 1 s timer
+	w, err := crashRestartWorker(w0)
+	if err != nil {
+		return &Fail{FP: "C10/restart-after-kill-failed", What: err.Error()}, nil
+	}
+	defer w.Close()
+	rep.Transition(int64(j.Points) + 1)
+	var res []MResultSeries
+	status, raw := "", ""
+	for attempt := 0; attempt < 7; attempt++ { // the metrics metadata is re-read every 5 s
+		res, status, raw, err = mQueryRange(w, name, MT0-5, MT0+uint32(j.Points)+5)
+		if err != nil {
+			return &Fail{FP: "C10/query-after-crash-died", What: err.Error()}, nil
+		}
+		if len(res) > 0 {
+			break
+		}
+		_ = w.Call("sleep", map[string]interface{}{"ms": 1000}, nil)
+	}
+	rep.Eval(1)
+	n := 0
+	for _, r := range res {
+		n += len(r.Points)
+	}
+	if n != j.Points {
+		return &Fail{FP: "C10/datapoints-replayed-from-the-wal-are-not-returned-by-queries", What: fmt.Sprintf("%d datapoints of series %s were accepted and written to the WAL (timer flush awaited); the server was killed and started again: "+
+			"the replay wrote them into block files, but a range query over the whole period returns %d of them within 7 s (status %s, %s)", j.Points, name, n, status, trunc(raw, 200))}, nil
+	}
+	return nil, nil
+}
+
+func c10CrashRestartQuery(rep *kernel.Report, budget *kernel.Budget) {
+	pool := serverPool()
+	pool.RecycleEvery = 1
+	pool.N = 2
+	d := &Driver[c10QJob]{Rep: rep, Pool: pool, Budget: budget,
+		Enumerate: func(emit func(c10QJob)) {
+			emit(c10QJob{Points: 3})
+			if rep.Tier == "thorough" {
+				emit(c10QJob{Points: 1})
+			}
+		},
+		Run:        c10QRun,
+		Key:        func(j *c10QJob) string { return fmt.Sprintf("crash-restart-query|%d", j.Points) },
+		Nontrivial: func(j *c10QJob) bool { return true },
+	}
+	d.Drive()
+}
